@@ -83,6 +83,10 @@ pub struct World {
     pub out_exists: bool,
     pub out_is_file: bool,
     pub pre_out: Vec<Node>,
+    /// The disk is "full" after this many bytes per file: while the build runs, writing a
+    /// regular file beyond that size fails with EFBIG (RLIMIT_FSIZE, SIGXFSZ ignored).
+    #[serde(default)]
+    pub write_limit: Option<u64>,
 }
 
 impl World {
@@ -101,6 +105,7 @@ impl World {
             out_exists: true,
             out_is_file: false,
             pre_out: vec![],
+            write_limit: None,
         }
     }
 
@@ -647,6 +652,23 @@ fn drive(
     Ok(Some(ordered.0))
 }
 
+/// Sets the soft RLIMIT_FSIZE (None: back to the hard limit); returns the previous soft limit.
+/// SIGXFSZ is ignored process-wide (see `main`), so a write beyond the limit returns EFBIG.
+fn set_file_size_limit(limit: Option<u64>) -> Option<u64> {
+    unsafe {
+        let mut old = libc::rlimit { rlim_cur: 0, rlim_max: 0 };
+        if libc::getrlimit(libc::RLIMIT_FSIZE, &mut old) != 0 {
+            return None;
+        }
+        let new = libc::rlimit {
+            rlim_cur: limit.map(|l| l as libc::rlim_t).unwrap_or(old.rlim_max),
+            rlim_max: old.rlim_max,
+        };
+        libc::setrlimit(libc::RLIMIT_FSIZE, &new);
+        (old.rlim_cur != old.rlim_max).then_some(old.rlim_cur as u64)
+    }
+}
+
 /// Executes one build `spec.repeat` times; returns one result per repetition.
 pub fn run_build(scratch: &mut Scratch, world: &World, spec: &BuildSpec) -> Vec<RunResult> {
     run_build_with(scratch, world, spec, true)
@@ -684,9 +706,13 @@ pub fn run_build_with(
         }
         LAST_PANIC.with(|p| *p.borrow_mut() = None);
         crate::alloc::reset_peak();
+        let unlimited = set_file_size_limit(world.write_limit);
         let r = std::panic::catch_unwind(std::panic::AssertUnwindSafe(|| {
             drive(world, &spec.entry, &in_path, &out_path, &dir)
         }));
+        if world.write_limit.is_some() {
+            set_file_size_limit(unlimited);
+        }
         let peak_alloc = crate::alloc::peak();
         pyxis::verif::uninstall();
 
